@@ -2014,6 +2014,56 @@ pub fn lane_flood(seed: u64) -> Vec<Scenario> {
             out.push(sc);
         }
     }
+    // more than one read round (1 MiB) arrives late, then silence: the limit counts from the
+    // start of the command, not from the last round that was read
+    for tier in [Tier::Lib, Tier::Cli] {
+        for limit in ["test", "document"] {
+            for (burst_at, kib) in [(4 * SEC, 1200u64), (4 * SEC, 500), (5900 * MS, 2200), (100 * MS, 1025)] {
+                let mut sim = base_sim(g.rng.next_u64());
+                sim.swarm.spawn_latency_max_ns = 1;
+                let mut tests = vec![];
+                for k in 0..3 {
+                    let mut t = g.test(&Plan::new(Fate::Pass), &mut sim.programs);
+                    if k == 1 {
+                        let unit: Vec<u8> = format!("b{}\n", &t.nonce[..6]).repeat(128).into_bytes();
+                        sim.programs.insert(
+                            t.nonce.clone(),
+                            vec![
+                                Op::Sleep { ns: burst_at },
+                                Op::OutRepeat { fd: 1, unit: Bytes(unit), times: kib },
+                                Op::Sleep { ns: 4 * SEC },
+                                Op::Status { code: 0 },
+                            ],
+                        );
+                        t.expectations = vec![];
+                        t.expect_match = false;
+                        if limit == "test" {
+                            t.cfg.timeout_ns = Some(6 * SEC);
+                        }
+                    }
+                    tests.push(t);
+                }
+                let mut d = doc("burst.md", Format::Md, tests);
+                if limit == "document" {
+                    d.total_timeout_ns = Some(6 * SEC);
+                }
+                let mut sc = Scenario {
+                    lane: format!("flood/{:?}/burst-then-quiet/{}-limit/{}ms-{}KiB", tier, limit, burst_at / MS, kib),
+                    tier,
+                    script_mode: false,
+                    docs: vec![d],
+                    cli: Cli::default(),
+                    sim,
+                    pretty: false,
+                    check: vec!["C14".into(), "C13".into()],
+                    partner: None,
+                    turns: None,
+                };
+                fill_expectations(&mut sc, &mut g);
+                out.push(sc);
+            }
+        }
+    }
     for tier in [Tier::Lib, Tier::Cli] {
         for limit in ["test", "document"] {
             for fd in [1u8, 2] {
